@@ -231,7 +231,7 @@ CHECKS["C05"] = {
              "every script is executed on the real mint (fresh inputs and quote per script) with the answers scripted in the Lightning model. "
              "oracle: reference automaton over (quote in UNPAID/PENDING/PAID, inputs in free/locked/spent) written from the statement as a set of allowed states after each step (both outcomes allowed where the statement only permits a release), "
              "checked after every step against the quote row, the proof rows, the responses, the number of lookups actually consumed and the preimage; a follow-up swap must succeed iff the inputs are free. "
-             "non-trivial: script with >=1 status lookup consumed; distinct = the script. Poll-during-pay unit (the harness owns this one schedule): the melt's pay call is held at the Lightning model (no payment recorded yet), 1..3 polls (quote state / proof states) run to completion and a swap of the inputs is attempted, then the call is released with outcome success / failed / in flight; against the model directly and through the CLN and LND adapters; oracle: PENDING and swap refused during the hold, states following the outcome afterwards; non-trivial = every case."),
+             "non-trivial: script with >=1 status lookup consumed; distinct = the script. Poll-during-pay unit (the harness owns this one schedule): the melt's pay call is held at the Lightning model (no payment recorded yet), 1..3 polls (quote state / proof states) run to completion and a swap of the inputs is attempted, then the call is released with outcome success / failed / in flight; against the model directly and through the CLN and LND adapters; oracle: PENDING and swap refused during the hold, states following the outcome afterwards; non-trivial = every case. Unit via_http: the same scripts (one length shorter) with the melt, the quote polls and the state checks sent through the HTTP handler and the answers read from its JSON."),
     "level_text": ("The finite space of Lightning answer scripts named by the property is enumerated completely (exhaustive: true) and each member is run against the real MeltTokens / GetMeltQuoteState / ProofsStateCheck code; "
                    "fault enumeration is the right level because the quantifier is a finite set of fault sequences."),
     "level_note": _WORLD_NOTE + "Answers are free scripts (not required to be consistent with each other), as the property's quantifier states. Fee ppk 100 and a 1% fee reserve are fixed.",
@@ -240,6 +240,7 @@ CHECKS["C05"] = {
         plain("scripts", "^TestScripts$", qs=16, ts=16),
         plain("via_cln", "^TestScriptsViaCLN$", qs=16, ts=16),
         plain("via_lnd", "^TestScriptsViaLND$", qs=16, ts=16),
+        plain("via_http", "^TestScriptsViaHTTP$", qs=16, ts=16),
         rapid("poll_during_pay", "^TestPollDuringPay$", 240, 24000, qs=4, ts=16),
     ],
 }
